@@ -48,7 +48,7 @@ class Harness:
         return canon_mod.Canon()
 
 
-def run_one(make, prefix, expect=None, visited=None, regime="full", bound=None, hashing=True, on_state=None):
+def run_one(make, prefix, expect=None, visited=None, regime="full", bound=None, hashing=True, on_state=None, flip=False):
     h = make()
     choices, points = [], []
     info = dict(cut=None, inv=None, new=0)
@@ -85,7 +85,9 @@ def run_one(make, prefix, expect=None, visited=None, regime="full", bound=None, 
                 used[0] += 1
         choices.append(c)
         points.append((len(en), cur_enabled, used[0]))
-        return c
+        # flip: the default (choice 0) is the LAST enabled thread instead of the first - a second deterministic base schedule
+        # for delay-bounded exploration (deviations are counted the same way)
+        return (len(en) - 1 - c) if flip else c
 
     s = vsched.Sched(chooser, quiescence_ok=h.quiescence_ok, tracer=h.tracer)
     vsched.SCHED = s
@@ -97,7 +99,7 @@ def run_one(make, prefix, expect=None, visited=None, regime="full", bound=None, 
     return h, s, choices, points, info
 
 
-def explore(make, regime="full", bound=None, hashing=True, max_execs=None, max_seconds=None, res=None, on_state=None):
+def explore(make, regime="full", bound=None, hashing=True, max_execs=None, max_seconds=None, res=None, on_state=None, flip=False):
     r = res or ExploreResult()
     t0 = time.time()
     visited = {} if hashing else None
@@ -110,7 +112,7 @@ def explore(make, regime="full", bound=None, hashing=True, max_execs=None, max_s
             r.cap_hit = f"max_seconds={max_seconds}"
             break
         prefix, expect = stack.pop()
-        h, s, choices, points, info = run_one(make, prefix, expect, visited, regime, bound, hashing, on_state)
+        h, s, choices, points, info = run_one(make, prefix, expect, visited, regime, bound, hashing, on_state, flip)
         r.executions += 1
         r.replay_checks += len(prefix)
         r.maxdepth = max(r.maxdepth, len(choices))
@@ -156,7 +158,7 @@ def explore(make, regime="full", bound=None, hashing=True, max_execs=None, max_s
     return r
 
 
-def replay(make, choices):
+def replay(make, choices, flip=False):
     """Re-run one recorded schedule without exploring; returns (harness, sched)."""
-    h, s, ch, pts, info = run_one(make, list(choices), None, None, "full", None, hashing=False)
+    h, s, ch, pts, info = run_one(make, list(choices), None, None, "full", None, hashing=False, flip=flip)
     return h, s, info
